@@ -176,19 +176,21 @@ where
     fn etag(&self) -> Option<HeaderValue> {
         // This etag format is similar to Apache's. The etag should change if the file is modified
         // or replaced. The length is probably redundant but doesn't harm anything.
-        let dur = self
-            .inner
-            .mtime
-            .duration_since(time::UNIX_EPOCH)
-            .expect("modification time must be after epoch");
+        // A file's modification time may precede the epoch; such times get a `-` before the
+        // (then backward-counted) seconds rather than a panic.
+        let (sign, dur) = match self.inner.mtime.duration_since(time::UNIX_EPOCH) {
+            Ok(d) => ("", d),
+            Err(e) => ("-", e.duration()),
+        };
 
         static HEX_U64_LEN: usize = 16;
         static HEX_U32_LEN: usize = 8;
         Some(unsafe_fmt_ascii_val!(
-            HEX_U64_LEN * 3 + HEX_U32_LEN + 5,
-            "\"{:x}:{:x}:{:x}:{:x}\"",
+            HEX_U64_LEN * 3 + HEX_U32_LEN + 6,
+            "\"{:x}:{:x}:{}{:x}:{:x}\"",
             self.inner.inode,
             self.inner.len,
+            sign,
             dur.as_secs(),
             dur.subsec_nanos()
         ))
